@@ -7,7 +7,7 @@ c07_machine2.py; cell conversion and the single set_matrix per set: Machine._col
 """
 import z3
 from pyvc.spec import contract
-from pyvc.values import PyObj, SymMat, SymVal, Builtin, PyList
+from pyvc.values import PyObj, SymMat, SymVal, Builtin, PyList, PyDict
 from pyvc.ops import mk, to_term
 from pyvc import spec
 from . import lib
@@ -357,3 +357,24 @@ c.ensures('one-request-for-the-whole-tile', "len(ghost('asked')) == 1 and ghost(
           "and ghost('asked')[0][2]['width'] == 3 and ghost('asked')[0][2]['height'] == 2 and ghost('asked')[0][2]['x'] == 0 and ghost('asked')[0][2]['y'] == 0 "
           "and ghost('asked')[0][2]['tile_index'] == 0 and ghost('asked')[0][2]['length'] == 1")
 c.ensures('cells-row-by-row', "result.height == 2 and result.width == 3 and all(result.matrix[r][col] == _cells[r * 3 + col] for r in range(2) for col in range(3))")
+
+
+# ---- the size of a real matrix light is what ITS tile of the device chain reports (the tile at start_index)
+c = contract(LL, 'MatrixLight._get_size', serves=['C15', 'C18'], unwrap=1, name='MatrixLight._get_size[chain of 3 tiles]')
+def _setup(b, case):
+    from pyvc.values import Opaque
+    asked = b.ghost('asked', PyList())
+    tiles = [PyDict({'width': b.sym('int', 'w%d' % i), 'height': b.sym('int', 'h%d' % i)}) for i in range(3)]
+    idx = case['start']
+    def req(I_, o, a, k):
+        asked.items.append((a[0], a[1]))
+        return Opaque('chain', attrs={'tile_devices': PyList(list(tiles)), 'start_index': idx})
+    impl = Opaque('device', {'req_with_resp': req})
+    impl.native = {'kind': 'generic'}
+    light = lib.lifx_light(b, 'matrix', impl, 'M', _height=None, _width=None)
+    return {'self': light, '_w': tiles[idx].d['width'], '_h': tiles[idx].d['height']}
+c.setup(_setup)
+c.cases([{'start': 0}, {'start': 1}, {'start': 2}])
+c.bounded('a chain of three tiles')
+c.ensures('asks-for-the-device-chain-once', "len(ghost('asked')) == 1 and ghost('asked')[0][0] is GetDeviceChain and ghost('asked')[0][1] is StateDeviceChain")
+c.ensures('takes-the-size-of-its-own-tile', 'self._width == _w and self._height == _h')
